@@ -864,11 +864,17 @@ class FileSet:
         gc.collect()
 
         # We do not want to have any None as data
-        files, data = zip(*[
+        results = [
             [info, content]
             for info, content in results
             if content is not None
-        ])
+        ]
+
+        # Nothing could be read (e.g. all files were skipped due to errors):
+        if not results:
+            return ([], []) if return_info else []
+
+        files, data = zip(*results)
 
         if return_info:
             return list(files), list(data)
